@@ -47,6 +47,8 @@ template <typename K, typename V, typename KC>
 static std::string runF(const std::vector<std::string> &ops)
 {
   FlatMap<K, V> m;
+  const FlatMap<K, V> &cview = m;     // every const member is exercised through this view of the same map
+  // (operator[] const is excluded: it cannot be instantiated - push_back on a const vector)
   std::ostringstream out;
   bool first = true;
   for (auto &tok : ops) {
@@ -57,9 +59,11 @@ static std::string runF(const std::vector<std::string> &ops)
       else if (f[0] == "idx") o << "val=" << Codec<V>::dec(m[KC::enc(std::stol(f[1]))]);
       else if (f[0] == "set") { m[KC::enc(std::stol(f[1]))] = Codec<V>::enc(std::stol(f[2])); o << "ok"; }
       else if (f[0] == "ati") { auto &it = m.at_index((size_t)std::stol(f[1])); o << "item=" << KC::dec(it.first) << "," << Codec<V>::dec(it.second); }
-      else if (f[0] == "size") o << "num=" << m.size();
-      else if (f[0] == "empty") o << (m.empty() ? "true" : "false");
-      else if (f[0] == "has") o << (m.contains(KC::enc(std::stol(f[1]))) ? "true" : "false");
+      else if (f[0] == "cat") o << "val=" << Codec<V>::dec(cview.at(KC::enc(std::stol(f[1]))));
+      else if (f[0] == "cati") { auto &it = cview.at_index((size_t)std::stol(f[1])); o << "item=" << KC::dec(it.first) << "," << Codec<V>::dec(it.second); }
+      else if (f[0] == "size") o << "num=" << cview.size();
+      else if (f[0] == "empty") o << (cview.empty() ? "true" : "false");
+      else if (f[0] == "has") o << (cview.contains(KC::enc(std::stol(f[1]))) ? "true" : "false");
       else if (f[0] == "erase") { m.erase(KC::enc(std::stol(f[1]))); o << "ok"; }
       else if (f[0] == "clear") { m.clear(); o << "ok"; }
       else o << "badop";
@@ -75,7 +79,11 @@ static std::string runF(const std::vector<std::string> &ops)
       size_t r = 0; std::vector<long> rk; for (auto it = cm.crbegin(); it != cm.crend(); ++it) { ++r; rk.push_back(KC::dec(it->first)); }
       bool okrev = true; size_t i = 0;
       for (auto it = cm.begin(); it != cm.end(); ++it, ++i) if (rk[rk.size() - 1 - i] != KC::dec(it->first)) okrev = false;
-      if (n != cm.size() || r != n || !okrev) o << "!ITER";
+      // the remaining spellings: rbegin()/rend() const and non-const, end() const reached from begin() const
+      std::vector<long> r2, r3;
+      for (auto it = cm.rbegin(); it != cm.rend(); ++it) r2.push_back(KC::dec(it->first));
+      for (auto it = m.rbegin(); it != m.rend(); ++it) r3.push_back(KC::dec(it->first));
+      if (n != cm.size() || r != n || !okrev || r2 != rk || r3 != rk) o << "!ITER";
     }
     out << (first ? "" : " ; ") << o.str();
     first = false;
